@@ -173,9 +173,11 @@ func (g *Gen) Make(kind string) Op {
 		o.X = g.xset(3, false)
 	case KRemoveX:
 		o.XDel = g.xnames(2)
+		o.BadName = g.R.Chance(1, 10)
 		o.CasClass = g.casClass([]int{1, 6, 2, 1})
 	case KDelPaths:
 		o.XDel = g.xnames(3)
+		o.BadName = g.R.Chance(1, 8)
 	case KUpdateX:
 		o.X, o.Exp, o.Preserve = g.xset(2, false), g.exp(), g.R.Chance(1, 3)
 		o.CasClass = g.casClass([]int{1, 6, 2, 1})
@@ -247,8 +249,15 @@ func (g *Gen) Make(kind string) Op {
 			}
 		}
 		g.maybeMacro(&o)
+		if g.R.Chance(1, 3) {
+			o.Preserve = true
+		}
+		if len(o.Macros) > 0 && g.R.Bool() {
+			o.SpecInCb = true
+		}
 	case KDeleteWX:
 		o.XDel = g.xnames(2)
+		o.BadName = g.R.Chance(1, 8)
 	case KSetMeta:
 		o.CasClass = g.casClass([]int{2, 6, 2, 1})
 		o.NewCasClass = rng.Pick(g.R, []string{"above", "above", "below", "far"})
@@ -448,6 +457,10 @@ func Variants() []Op {
 	}
 	add(Op{Kind: KWriteUpd, Mode: "body", Body: jb, X: xs, XDel: []string{"u1"}})
 	add(Op{Kind: KDeleteWX, XDel: []string{"_sync"}})
+	add(Op{Kind: KDeleteWX, XDel: []string{"_sync", "_vv"}, BadName: true})
+	add(Op{Kind: KDelPaths, XDel: []string{"_sync", "u1"}, BadName: true})
+	add(Op{Kind: KWriteUpd, Mode: "body", Body: jb, X: map[string]string{"_sync": `{"seq":1}`}, Preserve: true, SpecInCb: true, Macros: []Macro{{Path: "_sync.cas", Type: 0}, {Path: "_sync.crc", Type: 1}}})
+	add(Op{Kind: KWriteUpd, Mode: "xonly", X: map[string]string{"_sync": `{"seq":2}`}, Preserve: true})
 	add(Op{Kind: KDeleteWX, XDel: []string{"u1"}})
 	add(Op{Kind: KWriteSub, CasClass: CasZero, Path: "sub.p", Body: nil})
 	add(Op{Kind: KWriteUpd, Mode: "body", Body: jb, X: map[string]string{"_sync": `{"seq":1}`}, Macros: []Macro{{Path: "_sync.cas", Type: 0}, {Path: "_sync.crc", Type: 1}}})
